@@ -26,3 +26,23 @@ Proof.
   destruct (parseSchema_complete_entry d dk2 items in2 ix2 bi K2 Hw Hne H2) as [x2 [E2 Q2]].
   exists x1, x2. split; [exact E1|]. split; [exact E2|congruence].
 Qed.
+
+(* The grammar is unambiguous: one text is not the token sequence of two different documents. *)
+Theorem query_unambiguous : forall d q1 q2 input,
+  doc_wok d q1 -> doc_wok d q2 -> toks d input (flat_doc q1) -> toks d input (flat_doc q2) -> erase_qdoc q1 = erase_qdoc q2.
+Proof.
+  intros d q1 q2 input W1 W2 H1 H2.
+  destruct (parseQuery_complete_entry d q1 input W1 H1) as [a [E1 Q1]].
+  destruct (parseQuery_complete_entry d q2 input W2 H2) as [c [E2 Q2]]. congruence.
+Qed.
+
+Theorem schema_unambiguous : forall d (dk1 dk2 : str -> kind) items1 items2 input bi,
+  (forall s, dk1 s = String_ \/ dk1 s = BlockString) -> (forall s, dk2 s = String_ \/ dk2 s = BlockString) ->
+  Forall (item_wok d) items1 -> Forall (item_wok d) items2 -> (items1 <> [] \/ d F_S7 = true) -> (items2 <> [] \/ d F_S7 = true) ->
+  toks d input (flat_map (flat_item dk1) items1) -> toks d input (flat_map (flat_item dk2) items2) ->
+  erase_sdoc (with_builtin bi (sdoc_of items1)) = erase_sdoc (with_builtin bi (sdoc_of items2)).
+Proof.
+  intros d dk1 dk2 i1 i2 input bi K1 K2 W1 W2 N1 N2 H1 H2.
+  destruct (parseSchema_complete_entry d dk1 i1 input 0%N bi K1 W1 N1 H1) as [a [E1 Q1]].
+  destruct (parseSchema_complete_entry d dk2 i2 input 0%N bi K2 W2 N2 H2) as [c [E2 Q2]]. congruence.
+Qed.
